@@ -159,6 +159,9 @@ Definition qname_rt_inputs (c : option str * str * option nsmap) : bool :=
   let '(uri, local, m) := c in qname_rt_inputs_ok uri local m.
 Definition qname_rt_clark_ok (c : option str * str * option nsmap) : bool :=
   let '(uri, local, m) := c in qname_rt_clause_clark uri m.
+(* the namespace name is a plain ASCII URI: is_uri must accept it (C05_is_uri_accepts_plain) *)
+Definition qname_rt_uri_plain (c : option str * str * option nsmap) : bool :=
+  let '(uri, local, m) := c in match uri with Some u => spec_uri_plain u | None => false end.
 Definition qname_rt_default_ok (c : option str * str * option nsmap) : bool :=
   let '(uri, local, m) := c in qname_rt_clause_default uri m.
 (* the faithful model explains the failure: deser (ser v) <> v in the model too *)
